@@ -1,7 +1,8 @@
 (* Extraction of the struct-decoding model (PacketHeaders), the strict slicing
-   model, the cut variant and the two observer views. *)
+   model, the cut variant, the two observer views, and the lax struct-decoding
+   model (LaxPacketHeaders) with its observer view. *)
 From EP Require Import Base.Bytes Parse.Types Parse.Slices Parse.Cursor Parse.View
-  Parse.HdrModel Parse.HdrView Parse.HdrCut.
+  Parse.HdrModel Parse.HdrView Parse.HdrCut Parse.LaxSlices Parse.HdrLaxModel Parse.HdrLaxView.
 From Coq Require Import Extraction ExtrOcamlBasic.
 Extraction Language OCaml.
 Extraction "m_c04.ml"
@@ -9,4 +10,6 @@ Extraction "m_c04.ml"
   PacketHeaders.from_ethernet_slice PacketHeaders.from_ether_type PacketHeaders.from_ip_slice
   SlicedPacket.from_ethernet SlicedPacket.from_ether_type SlicedPacket.from_ip
   Cut.from_ethernet Cut.from_ether_type Cut.from_ip
-  hvres_of_h hvres_of_s stopped_at_ext vres_of.
+  hvres_of_h hvres_of_s stopped_at_ext vres_of
+  LaxPacketHeaders.from_ethernet LaxPacketHeaders.from_ether_type LaxPacketHeaders.from_ip
+  LaxPacketHeaders.from_linux_sll lhvres_of_h.
